@@ -41,7 +41,35 @@ func localExpected(ip net.IP) bool {
 }
 
 func (r *Run) c17IP() net.IP {
-	switch r.rng.Intn(12) {
+	switch r.rng.Intn(15) {
+	case 12:
+		// IPv6 unique-local (fc00::/7): private in the eyes of net.IP.IsPrivate, NOT exempt under BEP 42
+		ip := r.randIP(1)
+		ip[0] = byte(0xfc + r.rng.Intn(2))
+		return ip
+	case 13:
+		// other special-purpose ranges that BEP 42 does not exempt: CGNAT 100.64/10, benchmarking 198.18/15,
+		// documentation 2001:db8::/32, site-local fec0::/10, multicast
+		switch r.rng.Intn(5) {
+		case 0:
+			return net.IP{100, byte(64 + r.rng.Intn(64)), 3, 4}
+		case 1:
+			return net.IP{198, byte(18 + r.rng.Intn(2)), 3, 4}
+		case 2:
+			ip := r.randIP(1)
+			ip[0], ip[1], ip[2], ip[3] = 0x20, 0x01, 0x0d, 0xb8
+			return ip
+		case 3:
+			ip := r.randIP(1)
+			ip[0], ip[1] = 0xfe, byte(0xc0+r.rng.Intn(0x40))
+			return ip
+		default:
+			return net.IP{224, 0, 0, byte(r.rng.Intn(256))}
+		}
+	case 14:
+		// boundaries of the exempt IPv4 ranges
+		return []net.IP{{9, 255, 255, 255}, {11, 0, 0, 0}, {172, 15, 255, 255}, {172, 32, 0, 0}, {192, 167, 255, 255}, {192, 169, 0, 0},
+			{169, 253, 255, 255}, {169, 255, 0, 0}, {126, 255, 255, 255}, {128, 0, 0, 0}}[r.rng.Intn(10)]
 	case 0:
 		return net.IP{10, byte(r.rng.Intn(256)), 1, 2}
 	case 1:
